@@ -251,5 +251,20 @@ pub fn cases(rng: &mut Rng, tier: &str, driver: &Driver) -> (Vec<Case>, bool) {
         }
         cases.push(Case { ops, checks, tag: "variable-named-like-a-function".into(), nontrivial: true, show: format!("{} || {}", setup.join(" | "), probes.iter().map(|p| p.0).collect::<Vec<_>>().join(" | ")) });
     }
+    // never-assigned variables of both kinds read with the diagnostics switched ON (and off): a read yields the default of the
+    // variable's kind - 0 or the empty string - and a warning record next to the value, never an error
+    for warn in [1, 0] {
+        let probes: &[(&str, &str)] = &[("PRINT Q$ = \"\"", "1"), ("PRINT NOT R$", "1"), ("PRINT S$ < \"A\" OR 0", "1"), ("PRINT (T$)", ""), ("PRINT \"[\"; U$; \"]\"", "[]"), ("PRINT Q + 1", "1"), ("PRINT NOT R", "1"),
+            ("PRINT V$ = W$", "1"), ("PRINT V$ <> \"x\" AND W = 0", "1"), ("PRINT Q$ = \"\"", "1"), ("PRINT ABS(K) + INT(K)", "0"), ("PRINT M$(1) = \"\"", "1"), ("PRINT N(2) + 1", "1")];
+        let mut ops = vec![format!("new {} 0", warn)];
+        let mut checks = vec![];
+        for (text, want) in probes.iter() {
+            ops.push(format!("start {}", hex(text)));
+            checks.push(format!("reply-is {} ok", ops.len() - 1));
+            ops.push("take".to_string());
+            checks.push(format!("some-take-is {} P:{}", ops.len() - 1, hex(&format!("{}\n", want))));
+        }
+        cases.push(Case { ops, checks, tag: "never-assigned-with-diagnostics".into(), nontrivial: true, show: format!("warnings {} || {}", warn, probes.iter().map(|p| p.0).collect::<Vec<_>>().join(" | ")) });
+    }
     (cases, false)
 }
